@@ -34,7 +34,9 @@ TRet ==
           <<"C13.NodeShutsDown", (e.node \in stopping) => ~e.hung,
             "the node did not shut down after a stop request / fatal worker error (Run never returned)">>,
           <<"C13.NodeShutsDownPromptly", (e.node \in stopping /\ ~e.hung) => e.ms <= e.boundms,
-            "the node took longer than the bound to shut down">> >>, l, run)
+            "the node took longer than the bound to shut down">>,
+          <<"C13.EveryActivityReturned", (~e.hung /\ "inflight" \in DOMAIN e) => e.inflight = 0,
+            "Run returned while a call of one of the node's activities into the execution layer was still running (an activity that was not waited for)">> >>, l, run)
     /\ started' = started \ {e.node} /\ stopping' = stopping \ {e.node}
     /\ gates' = {g \in gates : g[1] # e.node}
     /\ UNCHANGED run
